@@ -309,6 +309,10 @@ func recScenario(p map[string]any) *Scenario {
 		if r, ok := x.Vars["rec"].(*recState); ok {
 			for _, pr := range r.problems {
 				out = append(out, Violation{Property: "C19", Signature: pr.Cat + ": " + pr.Sig, Detail: pr.Detail})
+				if pr.Cat == "name" || pr.Cat == "phantom" {
+					// an event under a path that does not exist / was never watched is a phantom in C02's sense too
+					out = append(out, Violation{Property: "C02", Signature: "recursive: " + pr.Cat + ": " + pr.Sig, Detail: pr.Detail})
+				}
 			}
 		}
 		if e.Failure != "" {
